@@ -698,3 +698,49 @@ func ruleR16_16(w *World, r *Report) {
 		r.Lost(fmt.Sprintf("goroutines started on the request path (found %d)", n))
 	}
 }
+
+// R15.8 a transaction header takes its identifier under the lock, after the join test
+func ruleR15_8(w *World, r *Report) {
+	u := w.Client()
+	r.Rule("R15.8", "BeginTransaction numbers and queues the header operation of a transaction only after it has taken the datatype lock (which it does only when the call does not join a running transaction): an identifier taken before that is consumed by every nested call and never delivered - a hole in the replica's sequence numbers, after which the server refuses every push (missing operations)", 1)
+	bt := u.Fn(pDatatypes, "TransactionDatatype", "BeginTransaction")
+	if bt == nil {
+		r.Lost("TransactionDatatype.BeginTransaction")
+		return
+	}
+	takesLock := func(c ssa.CallInstruction) bool {
+		if calleeName(c) == "Lock" {
+			return true
+		}
+		if f := staticCallee(c); f != nil && f.Pkg != nil && isOrda(f.Pkg.Pkg.Path()) {
+			for _, c2 := range callsIn(f) {
+				if calleeName(c2) == "Lock" {
+					return true
+				}
+			}
+		}
+		return false
+	}
+	var lock ssa.Instruction
+	for _, c := range callsIn(bt) {
+		if takesLock(c) && lock == nil {
+			lock = c.(ssa.Instruction)
+		}
+	}
+	if lock == nil {
+		r.Lost("BeginTransaction: the acquisition of the datatype lock")
+		return
+	}
+	bad := ""
+	for _, c := range callsNamed(bt, "SetNextOpID", "appendOperation", "NewTransactionOperation") {
+		if !instrDominates(lock, c.(ssa.Instruction)) {
+			bad = calleeName(c)
+		}
+	}
+	for _, a := range bufferAppends(bt) {
+		if !instrDominates(lock, a) {
+			bad = "the append to the transaction buffer"
+		}
+	}
+	r.Check(bad == "", "BeginTransaction/header numbered under the lock", u.Pos(bt.Pos()), "numbered and queued after the lock is taken", bad+" runs before the datatype lock is taken, i.e. also for a call that only joins the running transaction: that call consumes an identifier that is never delivered, the replica's sequence numbers get a hole and the server refuses every later push of this replica")
+}
